@@ -1,5 +1,6 @@
 import Chess.Lemmas.Reach
 import Chess.Lemmas.SearchF
+import Chess.Lemmas.FnsEquiv.Search
 
 /-!
 # C19 — fixed-depth search is reproducible
@@ -63,3 +64,11 @@ end Chess.Props.C19
 #print axioms Chess.Props.C19.depth_search_not_stopped
 #print axioms Chess.Props.C19.faithful_unstopped_runs_agree
 #print axioms Chess.Props.C19.faithful_reports_agree
+
+/-! ### Translation tie (C19.T)
+`tools/translate.py` regenerates `Chess/Gen/Fns.lean` from the Rust text of the leaf functions on every run (a
+parser, not patterns); the theorems below — proved in `Chess/Lemmas/FnsEquiv/*` and re-checked by the kernel whenever
+the generated term changes — say that the TRANSLATED code equals the hand-written model this file's theorems are
+about, for the ordering key (`move_score`), which together with the history counters decides the order in which moves are searched. A rewrite of the Rust text that keeps the meaning leaves them true; one that changes it breaks the
+theorem named after the function. -/
+#print axioms Chess.FnsEquiv.move_score_eq
